@@ -435,10 +435,14 @@ def main(run):
             # correspondence with the model (exact Gram matrix and positions recovered from the prototype)
             if anynear or not dense:
                 continue
+            # exact geometry: unit-cell Gram matrix snapped to 9 decimals (equal entries stay equal, zeros stay zero),
+            # supercell Gram matrix = S^T G S exactly; the implementation's float lattice differs from it by < 1e-8
             Gf = sc.cell @ sc.cell.T
-            Gx = [[Fr(float(x)).limit_denominator(100000) for x in r] for r in Gf]
+            Gu = [[Fr(repr(round(float(x), 9))) for x in r] for r in (cell.cell @ cell.cell.T)]
+            Sx = [[int(x) for x in r] for r in smat]
+            Gx = fmul(fmul(ftr(Sx), Gu), Sx)
             px = [[Fr(float(x)).limit_denominator(1200) for x in r] for r in sc.scaled_positions]
-            if np.abs(ffloat(Gx) - Gf).max() > 1e-10 * np.abs(Gf).max() or np.abs(ffloat(px) - sc.scaled_positions).max() > 1e-12:
+            if np.abs(ffloat(Gx) - Gf).max() > 1e-7 * np.abs(Gf).max() or np.abs(ffloat(px) - sc.scaled_positions).max() > 1e-12:
                 run.count("Primitive path: Gram matrix/positions not recoverable as small rationals (model skipped)")
                 continue
             spx = quiet(ShortestPairs, sc.cell, sc.scaled_positions, sc.scaled_positions[p2s], store_dense_svecs=True, symprec=SYMPREC)
